@@ -104,7 +104,7 @@ CHECKS["C01"] = dict(_db("c01", 64, 3200, "SELECT * FROM t (memstore included) d
           "optional WHERE, GROUP BY * or dim subsets incl. an absent dim, resolutions 1s/2s/7s/1m) x 5-34 points (mixed-type/missing/nil "
           "dims, missing/extra/non-numeric values, timestamps on exact period boundaries and +-1ns, duplicates, out of order) x random "
           "flush/reopen schedules; `SELECT * FROM t` on the real DB vs spec_rows of Model/DB.v. non-trivial: >= 3 points; distinct = distinct case JSON"))
-CHECKS["C06"] = dict(_db("c06", 64, 3200, "a grouped query (fewer dims / longer period / derived fields) differs from the aggregate of the raw points per output row"),
+CHECKS["C06"] = dict(_db("c06", 96, 3200, "a grouped query (fewer dims / longer period / derived fields) differs from the aggregate of the raw points per output row"),
     rule=("as C01, plus 4 queries per history: SELECT * / named subsets / derived fields over table fields, GROUP BY none, *, _, dim "
           "subsets incl. an absent dim, period = 1..8 x resolution, a non-multiple (planning error expected) or larger than the window; "
           "real DB vs spec_rows. non-trivial: >= 3 points; distinct = distinct case JSON"))
